@@ -156,7 +156,7 @@ fn run_custom(chunks: &[&str], outcomes: &[Outcome], cap0: usize, canary: bool, 
         let mut m_requests: Vec<usize> = vec![];
 
         for (i, c) in chunks.iter().enumerate() {
-            let r = (&mut *w).write_str(c);
+            let r = put(&mut *w, c);
             *ops += 1;
             if r.is_err() {
                 viol(format!("C12 write_str returned Err at chunk {i}: {}", desc()));
@@ -231,6 +231,21 @@ fn run_custom(chunks: &[&str], outcomes: &[Outcome], cap0: usize, canary: bool, 
     }
 }
 
+/// Which `fmt::Write` entry point delivers a chunk. All three must behave like one `write_str` of the chunk's UTF-8 bytes:
+/// `write_char` (single-char chunks) and the `write!` machinery are what real bridge code uses (`write!(w, "{}", x)`).
+static CHAR_API: std::sync::atomic::AtomicBool = std::sync::atomic::AtomicBool::new(false);
+fn put(w: &mut DiplomatWrite, c: &str) -> std::fmt::Result {
+    if CHAR_API.load(std::sync::atomic::Ordering::Relaxed) {
+        let mut it = c.chars();
+        match (it.next(), it.next()) {
+            (Some(ch), None) => w.write_char(ch),
+            _ => write!(w, "{}", c),
+        }
+    } else {
+        w.write_str(c)
+    }
+}
+
 /// Fixed-size writer over an exactly-sized heap buffer.
 fn run_fixed(chunks: &[&str], size: usize, canary: bool, ops: &mut u64) {
     let desc = || format!("fixed writer size={} chunks={:?}", size, chunks);
@@ -245,7 +260,7 @@ fn run_fixed(chunks: &[&str], size: usize, canary: bool, ops: &mut u64) {
         let mut m_buf: Vec<u8> = vec![];
         let mut m_failed = false;
         for (i, c) in chunks.iter().enumerate() {
-            let _ = w.write_str(c);
+            let _ = put(&mut w, c);
             *ops += 1;
             if !m_failed {
                 if m_buf.len() + c.len() > size - 1 {
@@ -310,7 +325,7 @@ fn run_owned(chunks: &[&str], cap0: usize, ops: &mut u64) {
             }
         }
         for (i, c) in chunks.iter().enumerate() {
-            let _ = (&mut *w).write_str(c);
+            let _ = put(&mut *w, c);
             *ops += 1;
             m_buf.extend_from_slice(c.as_bytes());
             let gb = diplomat_buffer_write_get_bytes(&*w);
@@ -382,6 +397,8 @@ pub fn exhaustive(maxchunks: usize, shard: u64, nshards: u64, canary: bool) {
         if (si as u64) % nshards != shard {
             continue;
         }
+        // every other sequence (per shard) goes through write_char / write! instead of write_str
+        CHAR_API.store((si as u64 / nshards) % 2 == 1, std::sync::atomic::Ordering::Relaxed);
         for &cap0 in CAPS {
             // enumerate grow-outcome patterns lazily: only prefixes that are actually consumed
             let mut done: std::collections::BTreeSet<Vec<u8>> = Default::default();
@@ -448,6 +465,7 @@ pub fn random(seed: u64, count: u64, canary: bool) {
             })
             .collect();
         let cap0 = 1 + rng.below(40) as usize;
+        CHAR_API.store(rng.chance(1, 2), std::sync::atomic::Ordering::Relaxed);
         run_custom(&seq, &pat, cap0, canary, &mut ops);
         run_owned(&seq, rng.below(40) as usize, &mut ops);
         run_fixed(&seq, 1 + rng.below(200) as usize, canary, &mut ops);
